@@ -64,8 +64,9 @@ type st = {
   mutable tree_alloc : int array;          (* tree index -> allocator index *)
   lz_c : (int list, int list) Hashtbl.t;   (* uint32 buffer -> compressed bytes, as observed *)
   lz_d : (int list, int list) Hashtbl.t;   (* compressed bytes -> what the real decompressor returned *)
-  before_hib : (int, icell list option * int list option) Hashtbl.t;
-  serialized : (int, int * int * int list option list * int list) Hashtbl.t; (* per allocator: hs, hg, buffers, file bytes *)
+  before_hib : (int, icell list option * int list option) Hashtbl.t;  (* observed arena when it went to sleep *)
+  obs_hd : (int, int list option list) Hashtbl.t;                     (* observed contents of the seven buffers *)
+  serialized : (int, int * int * int list option list * int list) Hashtbl.t; (* per allocator: observed hs, hg, buffers, file bytes *)
 }
 
 let compress_tbl (s : st) (buf : n list) : n list =
@@ -91,7 +92,7 @@ let () =
     if List.length ops <> List.length obs then failwith "ops/obs length";
     let s = { worlds = [| init_world |]; obs = [| initial_ost |]; tree_alloc = [||];
               lz_c = Hashtbl.create 16; lz_d = Hashtbl.create 16; before_hib = Hashtbl.create 4;
-              serialized = Hashtbl.create 4 } in
+              obs_hd = Hashtbl.create 4; serialized = Hashtbl.create 4 } in
     let diverged = ref false in
     List.iteri (fun i (o, ob) ->
       let here = Printf.sprintf "op#%d %s" i (string_of_sx o) in
@@ -104,12 +105,15 @@ let () =
       let model a = s.worlds.(a).wa in
       let set_model a al = s.worlds.(a) <- { s.worlds.(a) with wa = al } in
       let asleep a = (model a).storage = None in
+      (* judgements on the implementation's own outputs never look at the model *)
+      let asleep_obs a = s.obs.(a).ost = None in
+      let refused_check a what = if asleep_obs a then pf ("use of a hibernated allocator was not refused: " ^ what) in
       let writer = ref None in   (* (allocator, owner) allowed to write cells in this operation *)
       let expect_panic a r cls =
         (match r with
          | Some p -> if pclass_name p <> cls then mm (Printf.sprintf "panic class: impl=%s model=%s" cls (pclass_name p))
                       else count ("panic_" ^ cls)
-         | _ -> if asleep a then pf ("panics (" ^ cls ^ ") where the model does not") else mm ("implementation panics (" ^ cls ^ "), model does not")) in
+         | _ -> mm ("implementation panics (" ^ cls ^ "), model does not")) in
       (* ---- allocator-level events ---- *)
       let do_malloc a owner mid =
         count "mallocs";
@@ -117,6 +121,7 @@ let () =
         let ob = s.obs.(a) in
         let held = List.concat (List.map (fun (_, t) -> match t.ids with Some l -> l | None -> []) ob.otrees
                                 @ List.map snd ob.oraws) in
+        refused_check a "malloc succeeded";
         if mid = 0 then pf "malloc handed out the reserved slot 0"
         else if List.mem mid held then pf (Printf.sprintf "malloc handed out id %d which is still live (no free in between)" mid);
         let w = s.worlds.(a) in
@@ -134,27 +139,26 @@ let () =
                     if g <> [] then count "malloc_from_gap" else count "malloc_fresh";
                     s.worlds.(a) <- step (compress_tbl s) (decompress_tbl s) w (OMalloc (nat_of_int owner, nat_of_int ch))
                   end
-              | Panic p -> if asleep a then pf "use of a hibernated allocator was not refused (malloc succeeded)"
-                           else mm ("model malloc panics " ^ pclass_name p)
+              | Panic p -> mm ("model malloc panics " ^ pclass_name p)
               | Err _ -> mm "model malloc err")) in
       let do_free a owner fid =
         count "frees";
+        refused_check a "free succeeded";
         let w = s.worlds.(a) in
         if not (owns w (nat_of_int owner) (n_of_int fid)) then mm (Printf.sprintf "free of id %d which the model does not attribute to this owner" fid)
         else (match free (n_of_int fid) w.wa with
             | Ok _ -> s.worlds.(a) <- step (compress_tbl s) (decompress_tbl s) w (OFree (nat_of_int owner, n_of_int fid))
-            | Panic p -> if asleep a then pf "use of a hibernated allocator was not refused (free succeeded)"
-                         else mm ("model free panics " ^ pclass_name p)
+            | Panic p -> mm ("model free panics " ^ pclass_name p)
             | Err _ -> mm "model free err") in
       let tree_op t f =
         (* a tree operation on a hibernated allocator must be refused (panic) or touch nothing *)
         let a = s.tree_alloc.(t) in
         writer := Some (a, t);
         match tag res with
-        | "panic" -> if asleep a then count "tree_op_refused" else mm ("tree operation panics on an awake allocator: " ^ string_of_sx res)
+        | "panic" -> if asleep_obs a then count "tree_op_refused" else mm ("tree operation panics on an awake allocator: " ^ string_of_sx res)
         | _ -> f a in
       (* ---- the operation ---- *)
-      (match tag res with
+      (try (match tag res with
        | "skip" -> count "skipped"
        | "hang" -> pf "the operation did not terminate"
        | _ ->
@@ -176,7 +180,7 @@ let () =
               let a = arg 1 in
               let nt = Array.length s.tree_alloc in
               (match tag res with
-               | "panic" -> if asleep a || asleep s.tree_alloc.(arg 0) then count "tree_op_refused"
+               | "panic" -> if asleep_obs a || asleep_obs s.tree_alloc.(arg 0) then count "tree_op_refused"
                             else mm ("CloneDeep panics on awake allocators: " ^ string_of_sx res)
                | _ ->
                    s.tree_alloc <- Array.append s.tree_alloc [| a |];
@@ -186,8 +190,10 @@ let () =
               let a = arg 0 in
               (match tag res, clone (model a) with
                | "panic", r -> expect_panic a (pan r) (atom (List.hd (args res)))
-               | _, Ok c ->
+               | _, mc ->
                    count "clones";
+                   refused_check a "Clone succeeded";
+                   let c = (match mc with Ok c -> c | _ -> mm "model Clone fails"; model a) in
                    let na = Array.length s.worlds in
                    let nt = ref (Array.length s.tree_alloc) in
                    let ren = Hashtbl.create 8 in
@@ -196,11 +202,9 @@ let () =
                    s.tree_alloc <- Array.append s.tree_alloc added;
                    let owned' = List.map (fun (x, ow) ->
                      let ow = int_of_nat ow in
-                     (x, nat_of_int (if ow >= 100 then ow else Hashtbl.find ren ow))) s.worlds.(a).owned in
+                     (x, nat_of_int (if ow >= 100 then ow else try Hashtbl.find ren ow with Not_found -> ow))) s.worlds.(a).owned in
                    s.worlds <- Array.append s.worlds [| { wa = c; owned = owned' } |];
-                   s.obs <- Array.append s.obs [| initial_ost |]
-               | _, Panic p -> pf ("Clone of a hibernated allocator was not refused (model: " ^ pclass_name p ^ ")")
-               | _, Err _ -> mm "model clone err")
+                   s.obs <- Array.append s.obs [| initial_ost |])
           | "rm" ->
               let a = arg 0 in
               (match tag res with
@@ -219,6 +223,11 @@ let () =
               (match tag res with
                | "panic" -> expect_panic a (pan (hibernate (compress_tbl s) (model a))) (atom (List.hd (args res)))
                | _ ->
+                   if s.obs.(a).ohs > 0 then pf "Hibernate of an already hibernated allocator was not refused";
+                   let lzs0 = List.filter (fun x -> tag x = "lz") (args res) in
+                   if lzs0 <> [] then
+                     Hashtbl.replace s.obs_hd a (List.map (fun lz -> match args lz with
+                       | [_; A "nil"] -> None | [_; d] -> Some (ints_of_sx d) | [_; d; _; _] -> Some (ints_of_sx d) | _ -> failwith "lz") lzs0);
                    List.iter (fun lz -> match args lz with
                      | [inp; data; out; same] ->
                          count "lz4_buffers";
@@ -229,10 +238,7 @@ let () =
                      | _ -> ()) (List.filter (fun x -> tag x = "lz") (args res));
                    (match hibernate (compress_tbl s) (model a) with
                     | Ok al ->
-                        if al.storage = None then begin
-                          count "hibernations";
-                          Hashtbl.replace s.before_hib a (s.obs.(a).ost, s.obs.(a).og)
-                        end else count "hibernate_noop";
+                        if al.storage = None then count "hibernations" else count "hibernate_noop";
                         (* the compressed buffers themselves, position by position *)
                         let lzs = List.filter (fun x -> tag x = "lz") (args res) in
                         if lzs <> [] then
@@ -242,16 +248,17 @@ let () =
                             let md = (match List.nth al.hdata k with None -> None | Some b -> Some (ints_of_ns b)) in
                             if data <> md then mm (Printf.sprintf "hibernated buffer %d differs" k)) lzs;
                         set_model a al
-                    | Panic p -> pf ("Hibernate was not refused (model: " ^ pclass_name p ^ ")")
+                    | Panic p -> mm ("model Hibernate panics " ^ pclass_name p)
                     | Err _ -> mm "model hibernate err"))
           | "boot" ->
               let a = arg 0 in
               (match tag res with
                | "panic" -> expect_panic a (pan (boot (decompress_tbl s) (model a))) (atom (List.hd (args res)))
                | _ ->
+                   if s.obs.(a).ohs <> 0 && List.hd s.obs.(a).ohd = -1 then pf "Boot of a serialized allocator was not refused";
                    (match boot (decompress_tbl s) (model a) with
                     | Ok al -> if asleep a then count "boots" else count "boot_noop"; set_model a al
-                    | Panic p -> pf ("Boot was not refused (model: " ^ pclass_name p ^ ")")
+                    | Panic p -> mm ("model Boot panics " ^ pclass_name p)
                     | Err _ -> mm "model boot err"))
           | "ser" ->
               let a = arg 0 in
@@ -261,17 +268,19 @@ let () =
                    count "serialize_io_error";
                    (match serialize_fail (model a) with Err _ -> () | _ -> mm "Serialize returned an error, model differs")
                | _ ->
+                   if not (asleep_obs a) then pf "Serialize of an awake allocator was not refused";
+                   let fb = (match args (field "file" res) with [A "unreadable"] -> failwith "harness could not read the file back" | [b] -> ints_of_sx b | _ -> failwith "file") in
+                   (match Hashtbl.find_opt s.obs_hd a with
+                    | Some hd -> Hashtbl.replace s.serialized a (s.obs.(a).ohs, s.obs.(a).ohg, hd, fb)
+                    | None -> Hashtbl.remove s.serialized a);
+                   Hashtbl.replace s.obs_hd a [None; None; None; None; None; None; None];
                    (match serialize (model a) with
                     | Ok (al, bytes) ->
                         count "serializations";
-                        let fb = (match args (field "file" res) with [A "unreadable"] -> failwith "harness could not read the file back" | [b] -> ints_of_sx b | _ -> failwith "file") in
                         let mb = ints_of_ns bytes in
                         if fb <> mb then mm (Printf.sprintf "file layout differs: impl %d bytes, model %d bytes" (List.length fb) (List.length mb));
-                        let m = model a in
-                        Hashtbl.replace s.serialized a (int_of_z m.hslen, int_of_z m.hglen,
-                          List.map (function None -> None | Some b -> Some (ints_of_ns b)) m.hdata, fb);
                         set_model a al
-                    | Panic p -> pf ("Serialize of an awake allocator was not refused (model: " ^ pclass_name p ^ ")")
+                    | Panic p -> mm ("model Serialize panics " ^ pclass_name p)
                     | Err _ -> mm "model serialize err"))
           | "deser" ->
               let a = arg 0 in
@@ -284,6 +293,8 @@ let () =
                      | [b; l] -> Some (ints_of_sx b), int_of_sx l
                      | _ -> failwith "file") in
                    let hdc = List.map (function A "nil" -> None | b -> Some (ints_of_sx b)) (args (field "hdc" res)) in
+                   if not (asleep_obs a) then pf "Deserialize into an awake allocator was not refused";
+                   Hashtbl.replace s.obs_hd a hdc;
                    (* property, on the implementation's own outputs *)
                    (match presented with
                     | None -> count "deser_nofile"; if not gerr then pf "Deserialize succeeded without a readable file"
@@ -309,23 +320,25 @@ let () =
                         if mhd <> hdc then mm "buffers after Deserialize differ";
                         (* register what a later Boot will decompress (bytes are those of an earlier compression) *)
                         set_model a al
-                    | Panic p -> pf ("Deserialize into an awake allocator was not refused (model: " ^ pclass_name p ^ ")")
+                    | Panic p -> mm ("model Deserialize panics " ^ pclass_name p)
                     | Err _ -> mm "model deserialize err"))
           | "used" ->
               let a = arg 0 in
               (match tag res, used (model a) with
                | "panic", r -> expect_panic a (pan r) (atom (List.hd (args res)))
                | _, Ok u -> if int_of_z u <> int_of_sx (List.hd (args res)) then mm "Used() differs"
-               | _, Panic p -> pf ("Used() of a hibernated allocator was not refused (model: " ^ pclass_name p ^ ")")
+               | _, Panic p -> refused_check a "Used() returned"; mm ("model Used panics " ^ pclass_name p)
                | _, Err _ -> mm "model used err")
           | "size" ->
               if int_of_z (size (model (arg 0))) <> int_of_sx (List.hd (args res)) then mm "Size() differs"
-          | t -> failwith ("unknown op " ^ t)));
+          | t -> failwith ("unknown op " ^ t)))
+       with Failure m -> mm ("driver-failure " ^ m));
       (* ---- take in the new observations ---- *)
       List.iter (fun (a, o') ->
         if a >= Array.length s.obs then failwith "state of an unknown allocator";
         let before = s.obs.(a) in
         s.obs.(a) <- o';
+        if before.ost <> None && o'.ost = None then Hashtbl.replace s.before_hib a (before.ost, before.og);
         (* boot restores exactly what was there before hibernation (implementation vs itself) *)
         if before.ost = None && o'.ost <> None then
           (match Hashtbl.find_opt s.before_hib a with
